@@ -46,12 +46,14 @@ def key_variants(net, array_type, rng):
 	if codec.kind(key_field.field_type) == 'Array':
 		# the key is itself an array (namespace paths): compared element by element, a proper prefix first; the empty key is falsy in Python
 		top = (1 << 64) - 1
-		for value in [[], [], [0], [1], [1, 2], [2], [1, 1], [top], [top, 0], [1 << 56], [0, 0]]:
+		# 7 and 2^64 - 1 (and 1, 2^61) are congruent modulo 2^61 - 1, the modulus of CPython's integer hash
+		for value in [[], [], [0], [1], [1, 2], [2], [1, 1], [top], [top, 0], [1 << 56], [0, 0], [7], [1 << 61], [(1 << 61) - 1], [7, top], [top, 7]]:
 			variants.append(with_key(list(value)))
 	elif isinstance(key_field.field_type, str) and codec.kind(net.by_name[key_field.field_type]) == 'Alias':
 		size = net.by_name[key_field.field_type].size
 		top = (1 << (8 * size)) - 1
-		for value in [0, 1, 2, 255, 256, 1 << (8 * size - 8), (1 << (8 * size - 8)) + 1, 0x0100000000000000 % (top + 1), top - 1, top]:
+		extra = [7, ((1 << 61) - 1) % (top + 1), (7 + (1 << 61) - 1) % (top + 1)] if size == 8 else []
+		for value in [0, 1, 2, 255, 256, 1 << (8 * size - 8), (1 << (8 * size - 8)) + 1, 0x0100000000000000 % (top + 1), top - 1, top] + extra:
 			variants.append(with_key(value))
 	else:
 		for _ in range(6):
